@@ -260,6 +260,16 @@ func runSQLCol(c *core.Ctx) {
 		for i, e := range elems {
 			p := an.PathOf(e)
 			got = append(got, clip(p, 60))
+			// a value computed by a module helper: what the helper returns, in the builder's terms
+			if hc, ok := an.Unwrap(e).(*ssa.Call); ok {
+				if g := an.StaticCallee(&hc.Call); g != nil && P.InModule(g) && len(g.Blocks) > 0 {
+					for _, rb := range an.ReturnBlocks(g) {
+						if rv := an.ReturnValues(an.LastInstr(rb).(*ssa.Return)); len(rv) == 1 {
+							p += " ← " + an.PathOfIn(rv[0], &hc.Call)
+						}
+					}
+				}
+			}
 			if i < len(cols) && !colProvenanceOK(table, cols[i], p) {
 				good = false
 			}
@@ -442,30 +452,69 @@ func runSQLHash(c *core.Ctx) {
 		return
 	}
 	c.CountFuncs(2)
-	// key expression shapes
+	// key expression shapes: (hash<<32 | hash) over what was written into the hasher,
+	// whether computed inline or in a shared module helper (read in the caller's terms)
 	keyShape := ""
 	for _, rb := range an.ReturnBlocks(key) {
 		r := an.LastInstr(rb).(*ssa.Return)
-		if isConstBool(r.Results[1], true) && strings.Contains(an.PathOf(r.Results[0]), "<<") {
-			// the addressable return: guarded by ParamReplaceable
-			for _, w := range writesBefore(key, rb) {
-				if strings.Contains(w, "%d:%s:%s") {
-					keyShape = normHash(an.PathOf(r.Results[0]))
-				}
+		if !isConstBool(r.Results[1], true) {
+			continue
+		}
+		shape, writes := hashKeyDescr(key, r.Results[0], rb)
+		if !strings.Contains(shape, "<<") {
+			continue
+		}
+		// the addressable return: guarded by ParamReplaceable
+		for _, w := range writes {
+			if strings.Contains(w, "%d:%s:%s") {
+				keyShape = shape
 			}
 		}
 	}
 	tombShape := ""
 	var tombWrites []string
-	an.Instrs(tomb, func(in ssa.Instruction) {
-		if b, ok := in.(*ssa.BinOp); ok && b.Op.String() == "|" {
-			tombShape = normHash(an.PathOf(b))
-			tombWrites = writesBefore(tomb, b.Block())
-		}
-	})
+	if row := builderRow(tomb); len(row) > 0 {
+		tombShape, tombWrites = hashKeyDescr(tomb, row[0], nil)
+	}
 	okW := len(tombWrites) == 2 && strings.Contains(tombWrites[0], "strings.Split(") && strings.HasSuffix(tombWrites[0], "[1]") && strings.HasSuffix(tombWrites[1], ".Tags[*][1]")
 	c.Check(keyShape != "" && keyShape == tombShape && okW, nil, fname(c, tomb), "address-key", P.Pos(tomb.Pos()),
 		"tombstone key = hash(pubkey part)<<32 | hash(whole address), the same expression as the addressable storage key", fmt.Sprintf("tombstone key %q built from %v vs storage key %q: an 'a' deletion can never equal the key of the event it references", tombShape, tombWrites, keyShape))
+}
+
+// hashKeyDescr: the shape of a 64-bit key value (hasher sums normalised to H)
+// and the strings written into the hasher before it, both in fn's terms. The
+// key may be computed inline in fn or by a module helper fn calls.
+func hashKeyDescr(fn *ssa.Function, v ssa.Value, at *ssa.BasicBlock) (shape string, writes []string) {
+	v = an.Unwrap(v)
+	if cv, ok := v.(*ssa.Convert); ok {
+		v = an.Unwrap(cv.X)
+	}
+	if call, ok := v.(*ssa.Call); ok {
+		if g := an.StaticCallee(&call.Call); g != nil && len(g.Blocks) > 0 && g.Pkg != nil && strings.HasPrefix(g.Pkg.Pkg.Path(), an.ModulePrefix) {
+			for _, rb := range an.ReturnBlocks(g) {
+				rv := an.ReturnValues(an.LastInstr(rb).(*ssa.Return))
+				if len(rv) == 0 {
+					continue
+				}
+				shape = normHash(an.PathOfIn(rv[0], &call.Call))
+				for _, w := range writesBeforeVals(g, rb) {
+					writes = append(writes, an.PathOfIn(w, &call.Call))
+				}
+			}
+			return shape, writes
+		}
+	}
+	b := v.Parent().Blocks[0]
+	if in, ok := v.(ssa.Instruction); ok {
+		b = in.Block()
+	}
+	if at != nil {
+		b = at
+	}
+	for _, w := range writesBeforeVals(fn, b) {
+		writes = append(writes, an.PathOf(w))
+	}
+	return normHash(an.PathOf(v)), writes
 }
 
 func normHash(p string) string {
@@ -475,13 +524,21 @@ func normHash(p string) string {
 // writesBefore: arguments of io.WriteString calls in blocks dominating b (in order).
 func writesBefore(fn *ssa.Function, b *ssa.BasicBlock) []string {
 	var out []string
+	for _, w := range writesBeforeVals(fn, b) {
+		out = append(out, an.PathOf(w))
+	}
+	return out
+}
+
+func writesBeforeVals(fn *ssa.Function, b *ssa.BasicBlock) []ssa.Value {
+	var out []ssa.Value
 	for _, ci := range calls(fn) {
 		call, ok := ci.(*ssa.Call)
 		if !ok || an.CalleeName(&call.Call) != "io.WriteString" {
 			continue
 		}
 		if call.Block() == b || call.Block().Dominates(b) {
-			out = append(out, an.PathOf(call.Call.Args[1]))
+			out = append(out, call.Call.Args[1])
 		}
 	}
 	return out
